@@ -105,6 +105,10 @@ Grids == {Uniform(R(1, 4), 9), Uniform(R(1, 2), 9), Uniform(I(1), 5), Uniform(R(
 \* a long gap between two requested times: a growing solution (F5) needs more than the integrator's first step budget there
 LongGrids == {<<I(0), R(1, 2), I(1), I(2), I(60), I(61), I(62)>>, <<I(0), I(1), I(50), R(101, 2), I(64)>>}
 HasGrowth(bs) == \E n \in 1..Len(bs) : bs[n].fam = "F5"
+\* a first gap that is tiny compared with a later one (a log-spaced grid): the step size that suits the first interval
+\* must not be imposed on the later ones.  (Not with F1 / F3: their polynomials at t = 1/20000 leave TLC's integers.)
+TinyGrids == {<<I(0), R(1, 20000), R(1, 2), I(1), I(40)>>}
+HasPoly(bs) == \E n \in 1..Len(bs) : bs[n].fam \in {"F1", "F3"}
 IsUniform(g) == \A i \in 2..(Len(g) - 1) : RSub(g[i + 1], g[i]) = RSub(g[2], g[1])
 
 Init == blocks = << >> /\ cand = NoBlock /\ grid = <<Zero>> /\ pc = "build"
@@ -122,7 +126,8 @@ Accept == /\ pc = "build" /\ cand # NoBlock
           /\ cand' = NoBlock /\ UNCHANGED <<grid, pc>>
 Finish == /\ pc = "build" /\ Len(blocks) >= 1 /\ cand = NoBlock
           /\ IF Len(blocks) = MaxBlocks THEN TRUE ELSE Rnd(1..2, blocks) = 1
-          /\ \E g \in {Rnd(IF HasGrowth(blocks) THEN LongGrids ELSE Grids \cup {<<I(0), I(1), I(50), R(101, 2), I(64)>>}, blocks)} : grid' = g
+          /\ \E g \in {Rnd(IF ~HasPoly(blocks) /\ Rnd(1..5, blocks) = 1 THEN TinyGrids
+                          ELSE IF HasGrowth(blocks) THEN LongGrids ELSE Grids \cup {<<I(0), I(1), I(50), R(101, 2), I(64)>>}, blocks)} : grid' = g
           /\ pc' = "done" /\ UNCHANGED <<blocks, cand>>
 Next == Draw \/ Accept \/ Finish
 Spec == Init /\ [][Next]_vars
